@@ -65,7 +65,7 @@ def Cases(tier):
 REQUIRED = ['fam_inject_combine', 'fam_inject_negation', 'fam_shared_local',
             'fam_keyless_aggregate', 'fam_with_ground_chain',
             'plan_noinject', 'plan_with', 'plan_nowith', 'plan_ground',
-            'inline', 'atom_inline', 'shared_var_names', 'negation',
+            'inline', 'shared_var_names', 'negation',
             'distinct']
 
 
